@@ -271,6 +271,10 @@ def run_case(case):
         else:
             f = [dens_gauss, dens_ramp, dens_bimodal][int(rng.integers(0, 3))]
             p = f(x) if (usefunc or rng.random() < .5) else rng.uniform(0.05, 2.0, size=nx)
+        if not usefunc and not cumulative and rng.random() < .3:
+            # an integer-valued grid in an integer (also unsigned) or float32 dtype, tabulated density
+            x = np.sort(rng.choice(np.arange(1, 250), size=nx, replace=False)).astype(str(rng.choice(["u1", "u2", "u4", "u8", "i2", "i8", "f4"])))
+            p = rng.uniform(0.05, 2.0, size=nx)
         pv = p.astype(LD)
         xv = x.astype(LD)
         if cumulative:
